@@ -467,7 +467,7 @@ def run(ctx):
                 ctx.fail(sig, what, {'check': 'order1', 'mesh': mj, 'field': field_json(fld)}, obs)
     # ---- histories: convert a named field, overwrite it, convert again on the same object (drawn after the main loop so
     #      that its cases are unchanged for a given seed)
-    hkinds = ['tet', 'hex', 'shell:tri', 'shell:quad', 'tet2', 'prism', 'pyr', 'mixed-nopyr', 'shell:mixed']
+    hkinds = ['tet', 'hex', 'shell:tri', 'shell:quad', 'tet2', 'prism', 'pyr', 'tet', 'shell:mixed', 'hex']
     n_hist = ctx.n(120, 800) if ctx.driver is not None else ctx.n(240, 1600)
     for k in range(n_hist):
         history_case(ctx, rng, k, hkinds[k % len(hkinds)])
